@@ -214,6 +214,9 @@ type verifSupervisor struct {
 	// behaviour of a started process, by name prefix
 	runtimeScript func(p *verifProc)
 	extScript     func(p *verifProc, base string)
+	asyncEvents   bool
+	latePhase     int
+	lateUsed      bool
 }
 
 func (s *verifSupervisor) Exec(ctx context.Context, req *supvmodel.ExecRequest) error {
@@ -253,7 +256,46 @@ func (s *verifSupervisor) exit(p *verifProc, status int32, signo int32) {
 	} else {
 		ev.Event.ExitStatus = &status
 	}
+	if s.asyncEvents {
+		// like the local supervisor: termination becomes visible to Kill first, the event is
+		// delivered by a goroutine of its own and may be handled late
+		verifSpawnEnv(func() { s.events <- ev })
+		return
+	}
+	if s.latePhase > 0 && signo == 9 && !s.lateUsed {
+		// the notification about a killed process is handled late: only once the chosen
+		// phase of the NEXT invocation has been reached (C08)
+		s.lateUsed = true
+		w := s.w
+		begins, gots, ends := w.countWhat("invoke-begin"), w.countWhat("got-invoke"), w.countWhat("invoke-end")
+		phase := s.latePhase
+		verifSpawnEnv(func() {
+			verifWaitUntil(func() bool {
+				switch phase {
+				case 1:
+					return w.countWhat("invoke-begin") > begins
+				case 2:
+					return w.countWhat("got-invoke") > gots
+				default:
+					return w.countWhat("invoke-end") > ends+1
+				}
+			})
+			w.note("supervisor", "late-exit-event", name)
+			s.events <- ev
+		})
+		return
+	}
 	s.events <- ev
+}
+
+func (w *verifWorld) countWhat(what string) int {
+	n := 0
+	for _, e := range w.log {
+		if e.what == what {
+			n++
+		}
+	}
+	return n
 }
 
 func (s *verifSupervisor) Terminate(ctx context.Context, req *supvmodel.TerminateRequest) error {
@@ -711,6 +753,11 @@ func (w *verifWorld) RuntimeResponses() []string          { return w.rtResponses
 func (w *verifWorld) Statuses() []string                  { return w.rtStatuses }
 func (w *verifWorld) Deadlines() []string                 { return w.rtDeadlines }
 func (w *verifWorld) SetSlowInit(b bool)                  { w.slowInit = b }
+func (w *verifWorld) SetAsyncExitEvents(b bool)           { w.sup.asyncEvents = b }
+
+// SetLateExitPhase: the exit notification of the first process that is SIGKILLed is delivered
+// only when the next invocation has begun (1), has reached its runtime (2), or has ended (3).
+func (w *verifWorld) SetLateExitPhase(phase int) { w.sup.latePhase = phase }
 
 // LastSeq returns the sequence number of the last matching entry (0 = none).
 func (w *verifWorld) LastSeq(who, what, argPrefix string) int {
@@ -725,6 +772,11 @@ func (w *verifWorld) LastSeq(who, what, argPrefix string) int {
 
 // SetPlan: plan[k] lists the behaviours of the k-th started runtime process, one per invocation it receives.
 func (w *verifWorld) SetPlan(plan [][]int) { w.rtPlan = plan }
+
+// SetPlanNext: plan for the runtime processes started from now on
+func (w *verifWorld) SetPlanNext(plan [][]int) {
+	w.rtPlan = append(make([][]int, w.rtStarted), plan...)
+}
 
 func (w *verifWorld) plannedRuntime() func(p *verifProc) {
 	pk := w.plannedRuntimeK()
@@ -1019,4 +1071,82 @@ func (w *verifWorld) SetExtScript(script func(base string, api *VerifExtAPI)) {
 // InternalExtAPI: an API client for an extension living inside the given runtime process.
 func (a *VerifRuntimeAPI) InternalExtAPI(name string) *VerifExtAPI {
 	return &VerifExtAPI{w: a.w, who: "internal:" + name, p: a.p}
+}
+
+// ---------------------------------------------------------------------------
+// C08 support: leftover state and normalised projections of the ghost log
+
+// Leftover renders the orchestrator's per-generation state (what a reset is supposed to wipe).
+func (w *verifWorld) Leftover() string {
+	c := w.ctx
+	_, ffe := appctx.LoadFirstFatalError(c.appCtx)
+	out := core.VerifLeftover(c.registrationService, c.initFlow, c.invokeFlow)
+	out += fmt.Sprintf(" firstFatalError=%v runtimeRelease=%q errorTrace=%v initDone=%v shuttingDown=%v",
+		ffe, appctx.GetRuntimeRelease(c.appCtx), appctx.LoadInvokeErrorTraceData(c.appCtx) != nil, c.initDone,
+		c.shutdownContext.shuttingDown) // (agentsAwaitingExit is keyed by per-generation process names: not compared)
+	return out
+}
+
+func verifStripGen(s string) string {
+	if !strings.HasPrefix(s, "runtime-") && !strings.HasPrefix(s, "extension-") {
+		return s
+	}
+	i := len(s)
+	for i > 0 && s[i-1] >= '0' && s[i-1] <= '9' {
+		i--
+	}
+	if i > 0 && i < len(s) && s[i-1] == '-' {
+		return s[:i-1]
+	}
+	return s
+}
+
+// Projection returns, for the log entries with seq >= from, the entries of one observer with
+// process generation numbers removed and request ids replaced by their order of appearance.
+// key: "caller", "platform", "runtime", "extension-ext0", "supervisor/runtime", ...
+func (w *verifWorld) Projection(from int, key string) []string {
+	var ids []string
+	normID := func(s string) string {
+		if !strings.HasPrefix(s, "abcd0000-") {
+			return s
+		}
+		for i, x := range ids {
+			if x == s {
+				return fmt.Sprintf("id#%d", i)
+			}
+		}
+		ids = append(ids, s)
+		return fmt.Sprintf("id#%d", len(ids)-1)
+	}
+	var out []string
+	for _, e := range w.log {
+		if e.seq < from {
+			continue
+		}
+		who := verifStripGen(e.who)
+		parts := strings.Split(e.arg, "|")
+		for i := range parts {
+			parts[i] = normID(verifStripGen(parts[i]))
+		}
+		arg := strings.Join(parts, "|")
+		k := who
+		if who == "supervisor" {
+			k = "supervisor/" + parts[0]
+		}
+		if k == key {
+			out = append(out, e.what+"("+arg+")")
+		}
+	}
+	return out
+}
+
+// TimesSince renders "what@ms" for the log entries from seq on (debug aid)
+func (w *verifWorld) TimesSince(from int) string {
+	out := ""
+	for _, e := range w.log {
+		if e.seq >= from {
+			out += fmt.Sprintf("%s.%s@%d ", e.who, e.what, (w.times[e.seq]-1700000000000000000)/1000)
+		}
+	}
+	return out
 }
